@@ -39,6 +39,7 @@ static const char *op_names[N_OPS] = {
 #define PREFIX_N 3
 
 static int g_opi, g_fk, g_fmode;
+static int suspect[2][POOL];
 static long g_coincidences, g_coincidences_nonempty;
 
 #define API_ENTER() sim_alloc_enter (g_opi, g_fmode, g_fk, ENTRY_ANY)
@@ -63,6 +64,7 @@ execute (const scenario_t *sc, const char *property, result_t *res)
     sim_alloc_reset ();
     sim_alloc.tracking = 1;
     g_coincidences = g_coincidences_nonempty = 0;
+    memset (suspect, 0, sizeof suspect);
     for (i = 0; i < POOL; i++) { pixman_region32_init (&r32_pool[i]); pixman_region_init (&r16_pool[i]); }
 
     for (i = 0; i < sc->n_ops && !res->violated; i++)
@@ -102,19 +104,60 @@ execute (const scenario_t *sc, const char *property, result_t *res)
 
 	if (!ok || sim_alloc.n_failed)
 	{
-	    /* What a failed call must leave behind is C15's clause.  Here the
-	     * object is simply taken out of service and started afresh. */
+	    /* What a failed call must leave behind is C15's clause: the object is not
+	     * held to the canonical-form invariants until a later op has written it
+	     * successfully.  It stays in the pool, though: as an operand it makes later
+	     * results fail too (they become suspect in turn), and as long as it presents
+	     * itself as holding no rectangles it takes part in the equal() check as what
+	     * it then is, an empty set (half of the time; otherwise it is started afresh). */
 	    failed_ops++;
-	    if (wsel == 0) pixman_region32_init (&r32_pool[dst]);
-	    else pixman_region_init (&r16_pool[dst]);
-	    sim_count ("ops_failed_and_reinitialised", 1);
+	    if (sim_mod (op->a[1] + i, 2))
+	    {
+		if (wsel == 0) pixman_region32_init (&r32_pool[dst]);
+		else pixman_region_init (&r16_pool[dst]);
+			suspect[wsel][dst] = 0;
+		sim_count ("ops_failed_and_reinitialised", 1);
+	    }
+	    else
+	    {
+		suspect[wsel][dst] = 1;
+		sim_count ("ops_failed_region_kept", 1);
+		for (k = 0; k < POOL && !res->violated; k++)
+		{
+		    int nr = wsel == 0 ? pixman_region32_n_rects (&r32_pool[dst]) : pixman_region_n_rects (&r16_pool[dst]);
+		    if (nr != 0 || suspect[wsel][k]) continue;
+		    if (wsel == 0) r32_check_pair (dst, k, i, res); else r16_check_pair (dst, k, i, res);
+		}
+	    }
 	    continue;
+	}
+	{
+	    /* a result computed from a region that a failed call left behind is not held to
+	     * the invariants either (the broken region propagates, also through calls that
+	     * return TRUE, such as copy) */
+	    int from_suspect = 0;
+	    switch (op->kind)
+	    {
+	    case OP_UNION: case OP_INTERSECT: case OP_SUBTRACT:
+		from_suspect = suspect[wsel][sim_mod (a[1], POOL)] || suspect[wsel][sim_mod (a[2], POOL)]; break;
+	    case OP_INVERSE: case OP_UNION_RECT: case OP_INTERSECT_RECT: case OP_COPY:
+		from_suspect = suspect[wsel][sim_mod (a[1], POOL)]; break;
+	    case OP_CONV:
+		from_suspect = suspect[1 - wsel][sim_mod (a[2], POOL)]; break;
+	    case OP_TRANSLATE:
+		from_suspect = suspect[wsel][dst]; break;
+	    default: break;
+	    }
+	    suspect[wsel][dst] = from_suspect;
+	    if (from_suspect) { sim_count ("results_from_suspect_operands", 1); continue; }
 	}
 
 	/* canonical form of every live region of the pool that was written */
 	for (k = 0; k < POOL && !res->violated; k++)
 	{
-	    const char *site = wsel == 0 ? r32_canonical (&r32_pool[k], detail, sizeof detail)
+	    const char *site;
+	    if (suspect[wsel][k]) continue;
+	    site = wsel == 0 ? r32_canonical (&r32_pool[k], detail, sizeof detail)
 					 : r16_canonical (&r16_pool[k], detail, sizeof detail);
 	    if (site)
 	    {
@@ -134,6 +177,12 @@ execute (const scenario_t *sc, const char *property, result_t *res)
 	}
 	for (k = 0; k < POOL && !res->violated; k++)
 	{
+	    if (suspect[wsel][k])
+	    {
+		/* a region left by a failed call counts only while it shows no rectangles */
+		int nr = wsel == 0 ? pixman_region32_n_rects (&r32_pool[k]) : pixman_region_n_rects (&r16_pool[k]);
+		if (nr != 0) continue;
+	    }
 	    if (wsel == 0) r32_check_pair (dst, k, i, res);
 	    else r16_check_pair (dst, k, i, res);
 	}
